@@ -159,3 +159,40 @@ claim("C16",
       "not decided.",
       _NOTE, "ownership/effect analysis with per-call-site argument provenance; property-body resolution; "
              "constant-folded tables", "DESIGN.md §4 C16")
+
+claim("C03",
+      "Static analysis (level other): decides the vocabulary and escape clauses of the MusicXML pair — every tag/attribute "
+      "the exporter emits is mentioned by the importer (frozen exceptions), articulation vocabularies equal and "
+      "dynamics/pedal vocabularies shared, every score object built by an importer handler escapes to the part, no "
+      "no-effect statements, no stale loop variables, exporter read-only, part-group start/stop pairing. Equality of the "
+      "round-tripped score and the byte-level fixpoint are not decided.",
+      _NOTE, "writer/reader vocabulary agreement over ast string arguments, escape analysis of constructed objects, "
+             "loop-variable liveness, ownership/effect analysis, stack push/pop pairing", "DESIGN.md §3 F5a/F7b, §4 C03")
+
+claim("C11",
+      "Static analysis (level other): decides table and link clauses of the notation normalisers — numeric vs. symbolic "
+      "duration tables row by row (exact rational arithmetic), sortedness for the estimator's search, estimator/inverse "
+      "reading those tables, provenance of pitch/voice/staff of every continuation note, tie_next/tie_prev pairing and "
+      "restoration of the outgoing tie and slur ends, no store to pitch attributes in any normaliser, duplicate "
+      "definitions. Measure tiling and note-array invariance are not decided.",
+      _NOTE, "constant folding with exact fractions, argument provenance at constructor sites, block-local pairing, "
+             "attribute-restricted mutation scan", "DESIGN.md §4 C11")
+
+claim("C15",
+      "Static analysis (level other): decides structural clauses of merge_parts / iter_parts — both ends rescaled by the "
+      "same per-part factor, quarter duration installed through the constructor (no private-table writes), voice/staff "
+      "offsets that depend on the part index only with staff default 1, discard tuples covering the documented structural "
+      "classes, validated = dispatched modes, single part returned before any effect, reachability of every iter_parts "
+      "branch. Equality with the score-level note array is not decided.",
+      _NOTE, "argument/term provenance, ownership of private state, class-hierarchy-aware branch subsumption, CFG order",
+      "DESIGN.md §4 C15")
+
+claim("C02",
+      "Static analysis (level other), deliberately thin: decides that each forward/inverse map pair builds the same "
+      "interpolator with only `inv` differing and that the inverse swaps the same two arrays; that the integrand has the "
+      "documented form beat_factor * divisions / quarter_duration with the beat factor beat_type/4 (x musical_beats/beats); "
+      "that the pickup shift and its three unit variants are present; the constructor's read set; single ownership of the "
+      "beat-mode state; the clamped previous-value quarter-duration map. Exact values, continuity and monotonicity are "
+      "NOT decided (run-time arithmetic).",
+      _NOTE, "sibling-call agreement, expression-shape check of the integrand, def-use of the key-point columns, "
+             "ownership scan", "DESIGN.md §4 C02")
